@@ -330,7 +330,11 @@ def _ops_of(case, v):
 def _t_refine_after_trim0(case, v):
     ops = _ops_of(case, v)
     names = [o[0] for o in ops]
-    return 'MosaicReference' in v.detail and any(o[0] == 'trim' and o[3] == 0 for o in ops) and any(n in ('refine', 'refined_by') for n in names)
+    # a trimmed element carries explicit children maxrefine levels deep; the next refinement reaches a MosaicReference, which has no children
+    for k, o in enumerate(ops):
+        if o[0] == 'trim' and sum(1 for q in ops[k + 1:] if q[0] in ('refine', 'refined_by')) > o[3]:
+            return 'MosaicReference' in v.detail
+    return False
 
 
 def _t_boundary_of_take(case, v):
